@@ -74,6 +74,19 @@ def universe():
     add('const-1', '(-1)*u*v*dx', 'constant')      # CPython: hash(-1.0) == hash(-2.0)
     add('const-2', '(-2)*u*v*dx', 'constant')
     add('const-0.5', '(-0.5)*u*v*dx', 'constant')
+    # twins that agree in their leading digits (a rounded coefficient later replaced by the exact one): a key made from a
+    # shortened rendering of the number merges them although the generated source carries every digit
+    add('const-pi', '3.141592653589793*u*v*dx', 'constant')
+    add('const-pi6', '3.14159*u*v*dx', 'constant')
+    add('const-third', '0.3333333333333333*u*v*dx', 'constant')
+    add('const-third6', '0.333333*u*v*dx', 'constant')
+    add('const-1e-7', '1e-07*u*v*dx', 'constant')
+    add('const-1e-7b', '1.00000001e-07*u*v*dx', 'constant')
+    # operand order of the non-commutative operators
+    add('op-sub-cf', '(c - f)*u*v*dx', 'operator', args={'c': ['param', []], 'f': ['field', [], True]})
+    add('op-sub-fc', '(f - c)*u*v*dx', 'operator', args={'c': ['param', []], 'f': ['field', [], True]})
+    add('op-div-cf', '(c / f)*u*v*dx', 'operator', args={'c': ['param', []], 'f': ['field', [], True]})
+    add('op-div-fc', '(f / c)*u*v*dx', 'operator', args={'c': ['param', []], 'f': ['field', [], True]})
     add('op-plus', '(u*v + Dx(u,0)*v)*dx', 'operator')
     add('op-minus', '(u*v - Dx(u,0)*v)*dx', 'operator')
     add('op-mul', 'c*u*v*dx', 'operator', args=C)
